@@ -35,7 +35,7 @@ EXTRA_MODELS = ["Target"]
 
 ASSUMPTIONS = [
     "the reference target (Spec/TargetCore.v + Spec/TargetLogix.v) and Spec/Expect.v are the specification of the controller",
-    "request strings spell tag and member names as the controller's tag list does (Python dict lookup is case-sensitive)",
+    "request strings spell tag and member names as the controller does: README.rst documents that tag names for read and write are case-sensitive (the reference, like Logix, is case-insensitive; a case variant is not demanded)",
     "structure templates list their members in offset order, LEN/DATA strings have LEN at offset 0 and DATA at offset 4 (as Logix does)",
     "the encapsulation around a connected message (header, CPF, sequence count) is C11 / C17; here the message after the sequence count is compared",
     "error texts of failed Tags are C13; here a Tag carries whether it has an error",
@@ -224,6 +224,27 @@ def plan_kind(msgs):
     return "+".join(sorted(k)) or "none"
 
 
+def project_names(sc):
+    names = set()
+    for g in sc.tags:
+        names.add(g["name"])
+        if g["prog"] is not None:
+            names.add("Program:" + g["prog"])
+    for t in sc.templates:
+        for m in t["members"]:
+            names.add(m["name"])
+    return names
+
+
+def exact_spelling(names, req):
+    body = req.split("{")[0]
+    for part in body.split("."):
+        nm = part.split("[")[0]
+        if nm and not nm.isdigit() and nm not in names:
+            return False
+    return True
+
+
 # ------------------------------------------------------------------ one call, both sides, oracle
 def check_call(R, pair, reqs, case, all_valid_expected=False):
     """run read(*reqs) on the implementation and on the model; correspondence + oracle"""
@@ -256,11 +277,18 @@ def check_call(R, pair, reqs, case, all_valid_expected=False):
                            {"tag": t.tag, "value": t.value, "type": t.type, "error": t.error})
     # ---- oracle on the implementation
     exps = [RV.refread(tp, r) for r in reqs]
+    names = project_names(pair.sc)
     nontrivial = False
     for i, (r, e) in enumerate(zip(reqs, exps)):
         sh = shape_of(r, e)
         R.count("request_shape", sh)
         if e is None:
+            continue
+        if not exact_spelling(names, r):
+            # Logix names are case-insensitive, LogixDriver's tag list is a case-sensitive dict: requests are
+            # assumed to spell names as the controller does (ASSUMPTIONS); a case variant is not demanded
+            R.count("request_shape", "case-variant (not demanded)")
+            exps[i] = None
             continue
         nontrivial = True
         where = f"{pk}:{sh}"
@@ -736,7 +764,7 @@ def run(R, escalate=False):
     run_corpus(R)
     n_scen, n_calls = (1500, 14) if thorough else (110, 9)
     n_exh = 60 if thorough else 8
-    budget = (600 if thorough else 50)
+    budget = (600 if thorough else 36)
     for k in range(n_scen):
         if time.time() - t0 > budget:
             R.notes.append(f"scenario stream stopped after {k} scenarios (time budget)")
